@@ -4,7 +4,7 @@ CONSTANTS
   Alphabet = {120, 58, 35, 32, 9, 13, 10}
   MaxLen = 5
   LemmaLen = 4
-  GpgLen = 4
+  GpgLen = 3
   StrictDroppedInGpgClasses = FALSE
   PosStrictMissedByPrepass = FALSE
   ZoneWhatIf = FALSE
